@@ -48,5 +48,15 @@ CHECKS = {
           "wait_for and suspected S1 (waiter count never decremented) are not decided.",
   "note": "Trusted: clang 14 CFG; kernel futex semantics; MoveOnlyFunction invocation is opaque.",
   "technique": "static analysis: exactly-once path counting, dominance, edge-guard, memory-order and use-after-release rules over CFG facts"},
+ "C10": {
+  "text": "Decides on GarbageCollector<R>: drain-before-exit of the collector loop (every path from a queue pop to the thread's exit passes "
+          "an edge proving cursor == tasks.size(); this clause was violated by the original tree - finding F2, replayed and repaired by a "
+          "fix: commit - and a regression is reported again), refill only when drained, a reclaimer runs only on the edge "
+          "lowest_epoch <= low_water_mark(), the reclaimed count is incremented exactly once per invocation and is what advances the cursor, "
+          "stop() pushes the default (UINT64_MAX) marker before join under joinable(), the destructor stops, retire stamps a fresh tick, "
+          "and the queue flag pairing / single-consumer precondition of the non-concurrent pop. The tests only stop an already idle "
+          "collector, so the batch-shared-with-marker path is never staged. Which regions are open (Epoch) is C09; schedule-level exactly-once is not decided.",
+  "note": "Trusted: clang 14 CFG; std::thread/std::vector are opaque; the bounded queue (C01/C02) delivers what was pushed.",
+  "technique": "static analysis: must-pass-through (typestate of the task buffer), edge-guard and counting rules over CFG facts; who-may-call pairing"},
 }
 NOT_APPLICABLE = {("C%02d" % i): PENDING for i in range(1, 21) if ("C%02d" % i) not in CHECKS}
